@@ -60,6 +60,7 @@ OBLIGATIONS = {
     "seam_simplify_free": "a delegated call of simplify(MODE_SIMPLIFY_FREE) was recorded at the seam",
     "seam_findStopsGlobal": "a delegated call of findStopsGlobal with a non-zero reward matrix was recorded at the seam",
     "caller_direction_matters": "a caller case in which minimum and maximum of the recorded matrix differ",
+    "negative_entry_on_optimum": "the optimal break list uses a negative entry (a reward inside a cost matrix)",
 }
 
 
@@ -72,6 +73,10 @@ def _values(variant, which):
         vals = [0.0, c(1), c(2)]
     elif which == "two":
         vals = [0.0, c(1)]
+    elif which == "signed":     # costs and rewards mixed: a negative entry makes "prune when the left part is already
+        vals = [c(-1), 0.0, c(1)]   # no better" shortcuts unsound
+    elif which == "signed-wide":
+        vals = [c(-3), c(-1), c(2)]
     else:                       # "wide"
         vals = [0.0, c(1), c(3)]
     return alpha.order(variant, vals)
@@ -79,9 +84,10 @@ def _values(variant, which):
 
 def _matrix_spaces(tier, variant):
     """[(n, value-set name)] completed by this tier for this variant."""
-    sp = [(2, "three"), (3, "three"), (4, "three"), (5, "three"), (6, "two")]
+    sp = [(2, "three"), (3, "three"), (4, "three"), (5, "three"), (6, "two"),
+          (2, "signed"), (3, "signed"), (4, "signed"), (5, "signed")]
     if tier == "thorough":
-        sp += [(5, "wide"), (7, "two")]
+        sp += [(5, "wide"), (7, "two"), (5, "signed-wide")]
     return sp
 
 
@@ -172,6 +178,8 @@ def judge(ctx, site, case, lst, M, n, direction, oblige=True):
             ctx.oblige("optimum_is_direct_segment")
         if min(len(l) for l in best) >= 4:
             ctx.oblige("optimum_uses_two_interior_breaks")
+        if all(any(M[l[k]][l[k + 1]] < 0 for k in range(len(l) - 1)) for l in best):
+            ctx.oblige("negative_entry_on_optimum")
     if not valid_list(lst, n):
         ctx.violation("%s/not-an-increasing-list-from-first-to-last-candidate" % site, case,
                       {"returned": lst, "n": n})
